@@ -478,6 +478,13 @@ def cyl_to_cart(r, phi, z):
     return (r * math.cos(phi), r * math.sin(phi), z)
 
 
+def near_vertex(verts, sc):
+    """documented singular points of Triangle-based sources: the vertices; observers within 1e-9 sizes of
+    a vertex are counted to the singular point (the exact field diverges there)"""
+    va = np.array(verts, dtype=float)
+    return lambda p: bool(np.any(np.max(np.abs(va - np.array(p, dtype=float)), axis=1) <= 2e-9 * sc))
+
+
 def geometries(ctx):
     """yields (class name, variant label, source factory, points [(tags, xyz)], singular predicate)"""
     rng = ctx.rng
@@ -569,23 +576,23 @@ def geometries(ctx):
         zaxis = coord_set([("plane", 0.0)], sc, rng)
         pts = product_points(ctx, [xaxis, xaxis, zaxis], nr)
         yield ("Triangle", f"scale={sc:g}", lambda: magpy.misc.Triangle(vertices=tv, polarization=(0.2, -0.3, 1.0)), pts,
-               lambda p: tuple(p) in vert)
+               near_vertex(tv, sc))
         yield ("Triangle", f"pol=0,scale={sc:g}", lambda: magpy.misc.Triangle(vertices=tv, polarization=(0, 0, 0)), pts,
-               lambda p: tuple(p) in vert)
+               near_vertex(tv, sc))
         tet = tv + [(0.0, 0.0, 1.0 * sc)]
         tvert = set(tet)
         axes = [coord_set([("v0", 0.0), ("v1", 1.0 * sc), ("mid", 0.5 * sc), ("in", 0.2 * sc), ("ext", 2.0 * sc)], sc, rng)
                 for _ in range(3)]
         pts3 = product_points(ctx, axes, nr)
         yield ("Tetrahedron", f"scale={sc:g}", lambda: magpy.magnet.Tetrahedron(vertices=tet, polarization=(0.1, 0.2, 1.0)),
-               pts3, lambda p: tuple(p) in tvert)
+               pts3, near_vertex(tet, sc))
         cube = [(x * sc, y * sc, z * sc) for x in (0.0, 1.0) for y in (0.0, 1.0) for z in (0.0, 1.0)]
         cvert = set(cube)
         axes = [coord_set([("v0", 0.0), ("v1", 1.0 * sc), ("mid", 0.5 * sc), ("ext", 2.0 * sc)], sc, rng) for _ in range(3)]
         ptsm = product_points(ctx, axes, nr // 2)
         yield ("TriangularMesh", f"cube,scale={sc:g}",
                lambda: magpy.magnet.TriangularMesh.from_ConvexHull(points=cube, polarization=(0, 0, 1.0)),
-               ptsm, lambda p: tuple(p) in cvert)
+               ptsm, near_vertex(cube, sc))
 
     # ---- zero-size sources
     gen = [((f"g{i}",), p) for i, p in enumerate([(0.0, 0.0, 0.0), (1.0, 0.0, 0.0), (0.0, 0.0, 1e-170), (1.0, 2.0, 3.0),
@@ -682,13 +689,23 @@ def shrink_point(ctx, cls, label, mk, field, tags, p, singular, clause):
     return sorted({norm_tag(t) for t in ess if norm_tag(t)}), p
 
 
+def region(cls, label, ess):
+    """coarse, seed-independent name of the special set a shrunk counterexample lies on"""
+    if label.startswith(("dimension=", "diameter=", "flat", "r1=0,tiny")):
+        return "source-size-below-1e-150"
+    names = sorted({t.split(":")[0] for t in ess})
+    if cls == "CylinderSegment":
+        return "surface-or-axis" if names else "generic-point"
+    return "+".join(names) if names else "generic-point"
+
+
 SCALAR_PATH = {"Circle": 400, "Cylinder": 400, "CylinderSegment": 150}     # classes with batch-size dependent loops
 
 
 def search(ctx, big):
     found = 0
     tstart = time.time()
-    budget = ctx.n(100, 1200) * (3 if big else 1)
+    budget = ctx.n(100, 600) * (3 if big else 1)
     failed = set()               # (class, coarse tags) already reported: not evaluated again
     for cls, label, mk, pts, singular in geometries(ctx):
         if time.time() - tstart > budget:
@@ -776,9 +793,7 @@ def search(ctx, big):
                     r2 = check_one(ctx, cls, label, mk, field, tags, q, singular, confirm=4.0)
                     if r2 is not None and r2[0] == clause:
                         p, what = q, r2[1]
-                    variant = re.sub(r",?scale=[^,]*", "", label).split(",")[0] if cls in ("Cylinder", "Cuboid", "Sphere", "Circle") \
-                        and not label.startswith(("pol", "current")) else ""
-                    sig = f"{clause}/{cls}:{'+'.join(ess) if ess else 'any'}" + (f":{variant}" if variant else "")
+                    sig = f"{clause}/{cls}:{region(cls, label, ess)}"
                     ctx.impl_fail(sig, f"{cls}({label}).get{field}({tuple(float(x) for x in p)!r}) {what}",
                                   {"kind": "point", "class": cls, "label": label, "field": field,
                                    "point": [float.hex(float(x)) for x in p], "tags": list(tags)})
